@@ -1,5 +1,6 @@
 import Acra.Drv.FTI
+import Acra.Drv.Mpeg
 namespace Acra.Drv
-def allCodecs : List Codec := ftiCodecs
-def allFuncs : List Func := ftiFuncs
+def allCodecs : List Codec := ftiCodecs ++ Mpeg.mpegCodecs
+def allFuncs : List Func := ftiFuncs ++ Mpeg.mpegFuncs
 end Acra.Drv
